@@ -6,6 +6,7 @@ import Ptn.C19.FromTensor
 import Ptn.C19.StarFork
 import Ptn.C19.Binary
 import Ptn.C19.Const
+import Ptn.C19.ParentLeg
 /-! Property theorems for C19. Only property theorems and non-vacuity examples live here. -/
 namespace Ptn.C19
 
@@ -300,6 +301,278 @@ example : (forkRun [.main [2, 3], .sub 0 [2, 2], .main [3, 2, 2]]).map (·.nodes
     [⟨.main 0, none, [.sub 0 0, .main 1], [0, 1], [2, 3]⟩,
      ⟨.sub 0 0, some (.main 0), [], [0, 1], [2, 2]⟩,
      ⟨.main 1, some (.main 0), [], [0, 1, 2], [3, 2, 2]⟩] := by decide
+
+/-! ### the optional argument `parent_leg` of `add_chain_node`, `add_main_chain_node`, `add_sub_chain_node` -/
+
+/-- **One accepted attachment with `parent_leg`** (`attachAt` = what all three methods do: `parent_leg=None` means
+    the parent's first open leg `nvirt_legs()`; the new tensor always offers its leg 0).  With `k` the leg used:
+    the parent `p` exists, the new identifier is fresh, the new tensor has a leg 0, **`k` is an open leg of the
+    parent** (`nvirt ≤ k < number of legs`) **whose dimension equals that of the new tensor's leg 0**; afterwards
+    the parent has the new child appended to its children and its legs are
+    `(parent leg, child legs so far) ++ [the chosen leg] ++ (the other open legs in their previous order)` -
+    the documented convention `(parent, children, open)` with the open legs' relative order kept - every other
+    node is untouched, and the new node is appended with parent `pid`, no children, its legs in the order of
+    the array handed in and the shape handed in. -/
+theorem parent_leg_attach {ι : Type} [DecidableEq ι] (nodes : List (GNode ι)) (cid : ι) (shape : List Nat)
+    (pid : ι) (pl : Option Nat) (ns : List (GNode ι)) (h : attachAt nodes cid shape pid pl = some ns) :
+    ∃ p a, gFind nodes pid = some p ∧ gFind nodes cid = none ∧ 0 < shape.length ∧
+      p.nvirt ≤ pl.getD p.nvirt ∧ pl.getD p.nvirt < p.legs.length ∧
+      shape[0]? = p.shapeAt (pl.getD p.nvirt) ∧ p.legs[pl.getD p.nvirt]? = some a ∧
+      ns = (nodes.map fun x => if x.id = pid then x.toChild cid (pl.getD p.nvirt) else x) ++
+        [⟨cid, some pid, [], List.range shape.length, shape⟩] ∧
+      (p.toChild cid (pl.getD p.nvirt)).children = p.children ++ [cid] ∧
+      (p.toChild cid (pl.getD p.nvirt)).legs =
+        p.legs.take p.nvirt ++ a :: (p.legs.drop p.nvirt).eraseIdx (pl.getD p.nvirt - p.nvirt) ∧
+      (p.toChild cid (pl.getD p.nvirt)).dims = p.dims := by
+  unfold attachAt at h
+  cases hp : gFind nodes pid with
+  | none => rw [hp] at h; cases h
+  | some p =>
+    rw [hp] at h
+    simp only at h
+    obtain ⟨p', hp', hc, hs, hk1, hk2, hd, hns⟩ := gAddChild_spec nodes cid shape pid _ ns h
+    rw [hp] at hp'
+    injection hp' with hp'
+    subst hp'
+    refine ⟨p, p.legs[pl.getD p.nvirt]'hk2, rfl, hc, hs, hk1, hk2, hd, List.getElem?_eq_getElem hk2, hns, rfl, ?_, rfl⟩
+    exact popInsert_eq _ _ _ hk2 hk1
+
+example : attachAt [⟨StarId.center, none, [.chain 0 0], [0, 1, 2, 3], [2, 5, 3, 4]⟩] (StarId.chain 1 0) [4, 7]
+    StarId.center (some 3) = some
+    [⟨.center, none, [.chain 0 0, .chain 1 0], [0, 3, 1, 2], [2, 5, 3, 4]⟩,
+     ⟨.chain 1 0, some .center, [], [0, 1], [4, 7]⟩] := by decide
+
+/-- Which attachment a call `add_chain_node(tensor, c, parent_leg)` performs: the chain index must be
+    `≤ num_chains()`; a new chain (`c = num_chains()`) hangs its node `chain c 0` on the centre, an existing one
+    hangs `chain c j` (`j = len(chains[c])`) on `chain c (j-1)`; `parent_leg` is handed through to
+    `parent_leg_attach` **in both cases** (first and later nodes); `chains` grows by one entry. -/
+theorem star_parent_leg_call (st st' : Star) (c : Nat) (shape : List Nat) (pl : Option Nat)
+    (h : starAddL st c shape pl = some st') :
+    c ≤ st.lens.length ∧
+    ((c = st.lens.length ∧
+        ∃ ns, attachAt st.nodes (.chain c 0) shape .center pl = some ns ∧ st' = ⟨ns, st.lens ++ [1]⟩) ∨
+     (c < st.lens.length ∧ ∃ j ns, st.lens[c]? = some j ∧
+        attachAt st.nodes (.chain c j) shape (.chain c (j - 1)) pl = some ns ∧
+        st' = ⟨ns, st.lens.set c (j + 1)⟩)) := by
+  unfold starAddL at h
+  cases hc : gFind st.nodes StarId.center with
+  | none => rw [hc] at h; cases h
+  | some ctr =>
+    rw [hc] at h
+    simp only at h
+    by_cases h1 : ctr.legs.length < c
+    · rw [if_pos h1] at h; cases h
+    rw [if_neg h1] at h
+    by_cases h2 : st.lens.length < c
+    · rw [if_pos h2] at h; cases h
+    rw [if_neg h2] at h
+    refine ⟨by omega, ?_⟩
+    by_cases h3 : c = st.lens.length
+    · rw [if_pos h3] at h
+      left
+      cases ha : attachAt st.nodes (StarId.chain c 0) shape StarId.center pl with
+      | none => rw [ha] at h; cases h
+      | some ns =>
+        rw [ha] at h
+        simp only [Option.map_some, Option.some.injEq] at h
+        exact ⟨h3, ns, rfl, h.symm⟩
+    · rw [if_neg h3] at h
+      right
+      cases hl : st.lens[c]? with
+      | none => rw [hl] at h; cases h
+      | some j =>
+        rw [hl] at h
+        simp only at h
+        cases ha : attachAt st.nodes (StarId.chain c j) shape (StarId.chain c (j - 1)) pl with
+        | none => rw [ha] at h; cases h
+        | some ns =>
+          rw [ha] at h
+          simp only [Option.map_some, Option.some.injEq] at h
+          exact ⟨by omega, j, ns, rfl, ha, h.symm⟩
+
+/-- Calls without the argument are the calls with `parent_leg=None`: the earlier theorems (`star_structure`, …)
+    are the special case `none` of the model with the argument. -/
+theorem star_parent_leg_default (cshape : List Nat) (calls : List (Nat × List Nat)) :
+    starRunL cshape (calls.map fun x => (x.1, x.2, none)) = starRun cshape calls := by
+  unfold starRunL starRun starRunFromL starRunFrom
+  generalize some (starInit cshape) = acc
+  induction calls generalizing acc with
+  | nil => rfl
+  | cons x rest ih =>
+    rw [List.map_cons, List.foldl_cons, List.foldl_cons]
+    simp only [starAddL_none]
+    exact ih _
+
+/-- **Every accepted sequence of `add_chain_node(tensor, c, parent_leg)` calls, with any mixture of explicit and
+    omitted parent legs, builds the same tree as the calls without the argument**: forgetting leg order and
+    dimensions (`Star.flat`), the result is exactly what the default-leg run produces for the same chain
+    indices on tensors with the same numbers of legs and all dimensions `1` - which is accepted.  Hence all
+    identifier / parent / children / `chains` conclusions of `star_structure` hold: dict order centre, then
+    `chain c j` per call with `j` = number of earlier calls with index `c`; all distinct; `len(chains[c])` =
+    number of calls with index `c`; the centre's children are the chain heads in order of first use; `chain c j`
+    hangs below the centre (`j = 0`) or `chain c (j-1)` and has no child or exactly `chain c (j+1)` (iff it
+    exists).  (`parent_leg` only selects WHICH leg of the parent carries the bond: `parent_leg_attach`.) -/
+theorem star_parent_leg_structure (cshape : List Nat) (calls : List StarCallL) (st : Star)
+    (h : starRunL cshape calls = some st) :
+    starRun (ones cshape) (starSkel calls) = some st.flat ∧
+    st.nodes.map (·.id) = .center :: (starOps (starSkel calls)).map (·.cid) ∧
+    (st.nodes.map (·.id)).Nodup ∧
+    (∀ c, c < st.lens.length → st.lens[c]? = some (cntC (starSkel calls) c) ∧ 0 < cntC (starSkel calls) c) ∧
+    (∀ c, st.lens.length ≤ c → cntC (starSkel calls) c = 0) ∧
+    ∀ x ∈ st.nodes,
+      (x.id = .center → x.parent = none ∧
+        x.children = ((starOps (starSkel calls)).map (·.cid)).filter StarId.isHead) ∧
+      (∀ c j, x.id = .chain c j →
+        x.parent = some (if j = 0 then StarId.center else .chain c (j - 1)) ∧
+        (0 < j → StarId.chain c (j - 1) ∈ st.nodes.map (·.id)) ∧
+        (x.children = [] ∨ x.children = [.chain c (j + 1)]) ∧
+        (StarId.chain c (j + 1) ∈ st.nodes.map (·.id) → x.children = [.chain c (j + 1)])) := by
+  have hinit : (starInit cshape).flat = starInit (ones cshape) := by
+    simp [starInit, Star.flat, rootNode, GNode.flat, ones]
+  have hnd0 : ((starInit cshape).nodes.map (·.id)).Nodup := by simp [starInit]
+  obtain ⟨hrun, hnd⟩ := starRunFromL_flat calls (starInit cshape) st hnd0 h
+  rw [hinit] at hrun
+  have hrun' : starRun (ones cshape) (starSkel calls) = some st.flat := hrun
+  obtain ⟨h1, _, _, h4, h5, h6⟩ := star_structure _ _ _ hrun'
+  have hids : st.flat.nodes.map (·.id) = st.nodes.map (·.id) := map_flat_ids st.nodes
+  refine ⟨hrun', hids ▸ h1, hnd, h4, h5, ?_⟩
+  intro x hx
+  have hx' : x.flat ∈ st.flat.nodes := List.mem_map.2 ⟨x, hx, rfl⟩
+  obtain ⟨_, hc, _, hch⟩ := h6 x.flat hx'
+  refine ⟨fun e => ⟨(hc e).1, (hc e).2.2⟩, ?_⟩
+  intro c j e
+  have := hch c j e
+  rw [hids] at this
+  exact this
+
+example : (starRunL [2, 5, 3, 4] [(0, [3, 2], some 2), (1, [4, 7, 6], some 3), (1, [6], some 2)]).map (·.nodes) = some
+    [⟨.center, none, [.chain 0 0, .chain 1 0], [2, 3, 0, 1], [2, 5, 3, 4]⟩,
+     ⟨.chain 0 0, some .center, [], [0, 1], [3, 2]⟩,
+     ⟨.chain 1 0, some .center, [.chain 1 1], [0, 2, 1], [4, 7, 6]⟩,
+     ⟨.chain 1 1, some (.chain 1 0), [], [0], [6]⟩] := by decide
+
+/-- Which attachment `add_main_chain_node(tensor, parent_leg)` / `add_sub_chain_node(tensor, i, parent_leg)`
+    perform: the first main call creates the root (the argument is not looked at); a later main call hangs
+    `main m` on `main (m-1)`; a sub call hangs `sub i j` (`j = len(sub_chains[i])`) on `main i` (`j = 0`) or on
+    `sub i (j-1)`; `parent_leg` is handed through to `parent_leg_attach` in all three places. -/
+theorem fork_parent_leg_call (st st' : Fork) (call : ForkCallL) (h : forkAddL st call = some st') :
+    (∃ shape pl, call = .main shape pl ∧
+      ((st.subLens.length = 0 ∧ st.nodes = [] ∧ st' = ⟨[rootNode (.main 0) shape], [0]⟩) ∨
+       (0 < st.subLens.length ∧ ∃ ns,
+          attachAt st.nodes (.main st.subLens.length) shape (.main (st.subLens.length - 1)) pl = some ns ∧
+          st' = ⟨ns, st.subLens ++ [0]⟩))) ∨
+    (∃ i shape pl j ns, call = .sub i shape pl ∧ st.subLens[i]? = some j ∧
+      attachAt st.nodes (.sub i j) shape (if j = 0 then ForkId.main i else .sub i (j - 1)) pl = some ns ∧
+      st' = ⟨ns, st.subLens.set i (j + 1)⟩) := by
+  cases call with
+  | main shape pl =>
+    left
+    refine ⟨shape, pl, rfl, ?_⟩
+    simp only [forkAddL] at h
+    by_cases hm : st.subLens.length = 0
+    · rw [if_pos hm] at h
+      left
+      by_cases he : st.nodes.isEmpty = true
+      · rw [if_pos he] at h
+        injection h with h
+        exact ⟨hm, List.isEmpty_iff.1 he, h.symm⟩
+      · rw [if_neg he] at h; cases h
+    · rw [if_neg hm] at h
+      right
+      cases ha : attachAt st.nodes (ForkId.main st.subLens.length) shape (ForkId.main (st.subLens.length - 1)) pl with
+      | none => rw [ha] at h; cases h
+      | some ns =>
+        rw [ha] at h
+        simp only [Option.map_some, Option.some.injEq] at h
+        exact ⟨by omega, ns, rfl, h.symm⟩
+  | sub i shape pl =>
+    right
+    simp only [forkAddL] at h
+    by_cases h1 : st.subLens.length < i
+    · rw [if_pos h1] at h; cases h
+    rw [if_neg h1] at h
+    cases hl : st.subLens[i]? with
+    | none => rw [hl] at h; cases h
+    | some j =>
+      rw [hl] at h
+      simp only at h
+      cases ha : attachAt st.nodes (ForkId.sub i j) shape (if j = 0 then ForkId.main i else ForkId.sub i (j - 1)) pl with
+      | none => rw [ha] at h; cases h
+      | some ns =>
+        rw [ha] at h
+        simp only [Option.map_some, Option.some.injEq] at h
+        exact ⟨i, shape, pl, j, ns, rfl, hl, ha, h.symm⟩
+
+theorem fork_parent_leg_default (calls : List ForkCall) :
+    forkRunL (calls.map ForkCallL.default) = forkRun calls := by
+  unfold forkRunL forkRun forkRunFromL forkRunFrom
+  generalize some forkInit = acc
+  induction calls generalizing acc with
+  | nil => rfl
+  | cons x rest ih =>
+    rw [List.map_cons, List.foldl_cons, List.foldl_cons]
+    simp only [forkAddL_none]
+    exact ih _
+
+/-- **Every accepted sequence of `add_main_chain_node` / `add_sub_chain_node` calls with any mixture of explicit
+    and omitted parent legs builds the same tree as the calls without the argument** (same simulation as
+    `star_parent_leg_structure`): all identifier / parent / children / `sub_chains` conclusions of
+    `fork_structure` hold. -/
+theorem fork_parent_leg_structure (calls : List ForkCallL) (st : Fork) (h : forkRunL calls = some st) :
+    forkRun (calls.map ForkCallL.skel) = some st.flat ∧
+    ((calls = [] ∧ st = forkInit) ∨
+    ∃ rs rest, calls.map ForkCallL.skel = ForkCall.main rs :: rest ∧
+      st.nodes.map (·.id) = .main 0 :: (forkOps rest).map (·.cid) ∧
+      (st.nodes.map (·.id)).Nodup ∧
+      st.subLens.length = cntM rest + 1 ∧
+      (∀ i, i < st.subLens.length → st.subLens[i]? = some (cntS rest i)) ∧
+      ∀ x ∈ st.nodes,
+        (∀ k, x.id = .main k →
+          x.parent = (if k = 0 then none else some (ForkId.main (k - 1))) ∧
+          (0 < k → ForkId.main (k - 1) ∈ st.nodes.map (·.id)) ∧
+          (∀ ch ∈ x.children, ch = ForkId.main (k + 1) ∨ ch = ForkId.sub k 0) ∧ x.children.Nodup ∧
+          (ForkId.main (k + 1) ∈ st.nodes.map (·.id) → ForkId.main (k + 1) ∈ x.children) ∧
+          (ForkId.sub k 0 ∈ st.nodes.map (·.id) → ForkId.sub k 0 ∈ x.children)) ∧
+        (∀ i j, x.id = .sub i j →
+          x.parent = some (if j = 0 then ForkId.main i else .sub i (j - 1)) ∧
+          (if j = 0 then ForkId.main i else ForkId.sub i (j - 1)) ∈ st.nodes.map (·.id) ∧
+          (x.children = [] ∨ x.children = [.sub i (j + 1)]) ∧
+          (ForkId.sub i (j + 1) ∈ st.nodes.map (·.id) → x.children = [.sub i (j + 1)]))) := by
+  have hnd0 : (forkInit.nodes.map (·.id)).Nodup := by simp [forkInit]
+  obtain ⟨hrun, hnd⟩ := forkRunFromL_flat calls forkInit st hnd0 h
+  have hrun' : forkRun (calls.map ForkCallL.skel) = some st.flat := hrun
+  refine ⟨hrun', ?_⟩
+  have hids : st.flat.nodes.map (·.id) = st.nodes.map (·.id) := map_flat_ids st.nodes
+  rcases fork_structure _ _ hrun' with ⟨h0, h1⟩ | ⟨rs, rest, hc, hi, _, hl, hs, hx⟩
+  · left
+    have hc : calls = [] := by
+      cases calls with
+      | nil => rfl
+      | cons a t => simp at h0
+    subst hc
+    simp only [forkRunL, forkRunFromL, List.foldl_nil, Option.some.injEq] at h
+    exact ⟨rfl, h.symm⟩
+  · right
+    refine ⟨rs, rest, hc, hids ▸ hi, hnd, hl, hs, ?_⟩
+    intro x hxm
+    have hx' : x.flat ∈ st.flat.nodes := List.mem_map.2 ⟨x, hxm, rfl⟩
+    obtain ⟨_, _, hm, hsb⟩ := hx x.flat hx'
+    refine ⟨?_, ?_⟩
+    · intro k e
+      have := hm k e
+      rw [hids] at this
+      exact ⟨this.1, this.2.2.1, this.2.2.2⟩
+    · intro i j e
+      have := hsb i j e
+      rw [hids] at this
+      exact this
+
+example : (forkRunL [.main [3, 2, 4] none, .sub 0 [4, 2] (some 2), .main [3, 5] (some 1),
+    .sub 1 [5] none]).map (·.nodes) = some
+    [⟨.main 0, none, [.sub 0 0, .main 1], [2, 0, 1], [3, 2, 4]⟩,
+     ⟨.sub 0 0, some (.main 0), [], [0, 1], [4, 2]⟩,
+     ⟨.main 1, some (.main 0), [.sub 1 0], [0, 1], [3, 5]⟩,
+     ⟨.sub 1 0, some (.main 1), [], [0], [5]⟩] := by decide
 
 /-! ### Binary tree (`generate_binary_ttns`) -/
 
